@@ -345,6 +345,11 @@ impl fmt::Display for SignalType {
 ///   1. The original name (obtained from the source code).
 ///   2. An optional suffix (used to ensure uniqueness when lifting to IR).
 ///   3. An optional version (applied when the CFG is converted to SSA form).
+/// The prefix of the loop counters which are introduced when anonymous
+/// components inside loops are removed (followed by the line and the offset
+/// of the loop).
+pub const GENERATED_COUNTER_PREFIX: &str = "anon_var_";
+
 #[derive(Clone, Hash, PartialEq, Eq)]
 pub struct VariableName {
     /// This is the original name of the variable from the function or template
@@ -403,6 +408,14 @@ impl VariableName {
         let mut result = self.clone();
         result.suffix = None;
         result
+    }
+
+    /// Returns true if this is one of the loop counters which are introduced when
+    /// anonymous components inside loops are removed. (They are not part of the
+    /// program as written, so there is nothing to report about them.)
+    #[must_use]
+    pub fn is_generated_counter(&self) -> bool {
+        self.name.starts_with(GENERATED_COUNTER_PREFIX)
     }
 
     /// Returns a new copy of the variable name with the version dropped.
